@@ -1212,9 +1212,11 @@ def generate_j_part_cb_from_jump_operators(
     """
     dim = jump_operators[0].shape[0]
     identity = np.eye(dim)
+    # anti-commutator term -1/2 {c^dagger c, rho}: vec(A rho) = (A x I) vec(rho), vec(rho A) = (I x A^T) vec(rho)
+    squares = [opertor.conj().T @ opertor for opertor in jump_operators]
     terms = [
-        mutil.kron(opertor, identity) + mutil.kron(identity, opertor.conj())
-        for opertor in jump_operators
+        mutil.kron(square, identity) + mutil.kron(identity, square.conj())
+        for square in squares
     ]
     j_part_cb = -1 / 2 * reduce(add, terms)
     return j_part_cb
